@@ -17,7 +17,7 @@ import numpy as np
 from pv import gf2
 from pv import families as fam
 from pv.common import panqec_frame
-from pv.checks.c05 import NOISES, decoder_classes
+from pv.checks.c05 import NOISES, allowed_classes, decoder_classes
 
 PROPERTY = 'C06'
 LEVEL = 'exploration'
@@ -45,7 +45,7 @@ ASSUMPTIONS = ['supported size family = pv/families.py',
 REQUIRED_COUNTERS = ['history_decodes', 'fresh_reference_decodes',
                      'ordered_pairs_checked', 'syndrome_digests_compared',
                      'table_digests_compared', 'sweep_restored_comparisons',
-                     'zero_after_history']
+                     'zero_after_history', 'sibling_decodes']
 SHARD_TIMEOUT = {'quick': 900, 'thorough': 3600}
 EXHAUSTIVE = True
 EXHAUSTIVE_SCOPE = ('all ordered pairs of valid syndromes for the (decoder, '
@@ -162,6 +162,24 @@ def plan(tier, seed):
                               'opts': opts, 'n_histories': n_h,
                               'tier': tier, 'seed': seed,
                               'cost': per * n_h * 12})
+    nr = {'quick': 12, 'thorough': 80}[tier]
+    for dname, codes in SIBLINGS.items():
+        for cls, size in codes:
+            optss = [{}]
+            if dname == 'BeliefPropagationOSDDecoder' and \
+                    fam.get_class(cls).deformation_names:
+                optss.append({'code_def':
+                              fam.get_class(cls).deformation_names[0]})
+            for opts in optss:
+                per = {'UnionFindDecoder': 16, 'XCubeMatchingDecoder': 60,
+                       'MemoryBeliefPropagationDecoder': 150}.get(dname, 3)
+                tasks.append({'kind': 'siblings', 'decoder': dname,
+                              'cls': cls, 'size': list(size),
+                              'noise': 'depol', 'rate': 0.1,
+                              'noise_def': [None, {}], 'opts': opts,
+                              'n_rounds': nr if per < 100 else nr // 3,
+                              'tier': tier, 'seed': seed,
+                              'cost': per * nr * 14})
     return tasks
 
 
@@ -190,6 +208,8 @@ def desc_of(task):
 
 def mech_of(task, tag):
     base = f"{task['decoder']}/{task['cls']}"
+    if task['opts'].get('siblings'):
+        base += '/siblings-on-one-code'
     if task['opts'].get('channel_update'):
         base += '/channel_update'
     if task['opts'].get('code_def'):
@@ -447,8 +467,103 @@ def run_histories(task, out):
             if h == 0 else None)
 
 
+SIBLINGS = {
+    'MatchingDecoder': [('Toric2DCode', (4, 4)), ('RotatedPlanar2DCode', (5, 4))],
+    'UnionFindDecoder': [('Toric2DCode', (3, 3))],
+    'BeliefPropagationOSDDecoder': [
+        ('Toric2DCode', (4, 4)), ('Toric2DCode', (3, 4)),
+        ('Planar2DCode', (4, 3)), ('XCubeCode', (2, 2, 2)),
+        ('RotatedPlanar3DCode', (2, 2, 2))],
+    'XCubeMatchingDecoder': [('XCubeCode', (2, 2, 3))],
+    'MemoryBeliefPropagationDecoder': [('RotatedPlanar2DCode', (3, 3))],
+}
+
+
+def run_siblings(task, out):
+    """Several decoders alive on ONE code object (what a batch over error
+    rates builds): same class, different error rates / noise, plus decoders
+    of the other classes that accept the code.  Calls are interleaved; each
+    answer must be the one a fresh decoder on a fresh code gives."""
+    from panqec.error_models import PauliErrorModel
+    rng = np.random.default_rng([task['seed'], 608, len(task['cls']),
+                                 sum(task['size'])])
+    cls, size = task['cls'], tuple(task['size'])
+    code_def = task['opts'].get('code_def')
+    code = fam.build(cls, size, code_def, {})
+    names = fam.get_class(cls).deformation_names
+    cfgs = [('depol', 0.05, None), ('depol', 0.2, None), ('depol', 0.4, None),
+            ('biasZ3', 0.2, None)]
+    if names and task['decoder'] != 'MemoryBeliefPropagationDecoder':
+        cfgs.append(('biasZ3', 0.2, names[0]))
+    others = [d for d, codes in SIBLINGS.items() if d != task['decoder']
+              and cls in allowed_classes(decoder_classes()[d])
+              and d != 'MemoryBeliefPropagationDecoder'][:2] \
+        if code_def is None else []
+    sibs = []       # (sub-task, live decoder)
+    ems = {}
+    try:
+        for dname in [task['decoder']] * len(cfgs) + others:
+            noise, rate, ndn = cfgs[len(sibs) % len(cfgs)]
+            sub = dict(task, decoder=dname, noise=noise, rate=rate,
+                       noise_def=[ndn, {}])
+            key = (noise, ndn)
+            if key not in ems:      # error models are shared as well
+                rx, ry, rz = NOISES[noise]
+                ems[key] = PauliErrorModel(rx, ry, rz, deformation_name=ndn)
+            kw = {k: v for k, v in task['opts'].items() if k != 'code_def'}
+            if dname != task['decoder']:
+                kw = {}
+            if dname == 'MemoryBeliefPropagationDecoder':
+                kw['max_bp_iter'] = 4
+            with contextlib.redirect_stdout(io.StringIO()):
+                dec = decoder_classes()[dname](code, ems[key], rate, **kw)
+            sibs.append((sub, dec, FreshRef(sub, out)))
+    except Exception as e:
+        where = panqec_frame(e)
+        if where is None:
+            raise
+        out.violation(mech_of(task, f'siblings/construct-raises-'
+                                    f'{type(e).__name__}'),
+                      f'{type(e).__name__}: {e} at {where}', desc_of(task))
+        return
+    n = code.n
+    H = gf2.pack_rows(code.stabilizer_matrix)
+    m = len(H)
+    kinds = ['zero', 'x-only', 'z-only', 'sparse', 'sparse', 'dense']
+    for r in range(task['n_rounds']):
+        s_int = random_syndrome(rng, code, H, n, str(rng.choice(kinds)))
+        order = rng.permutation(len(sibs))
+        if r % 4 == 3:          # one decoder called twice in a row
+            order = np.concatenate([order, order[-1:]])
+        for i in order:
+            sub, dec, fresh = sibs[int(i)]
+            s_arr = gf2.unpack(s_int, m).astype('uint8')
+            try:
+                got = quiet_decode(dec, s_arr)
+                ref = fresh.get(s_int, m)
+            except Exception as e:
+                where = panqec_frame(e)
+                if where is None:
+                    raise
+                out.violation(mech_of(sub, f'siblings/raises-'
+                                           f'{type(e).__name__}'),
+                              f'{type(e).__name__}: {e} at {where}',
+                              dict(desc_of(sub), where=where))
+                return
+            out.count('sibling_decodes')
+            ok = compare(dict(sub, opts=dict(sub['opts'], siblings=True)),
+                         out, got, ref, f'round {r}, {len(sibs)} decoders on '
+                         'one code object', s_int, m, False)
+        out.case(dict(desc_of(task), kind='siblings', round=r,
+                      s=s_int % (1 << 61)), nontrivial=bool(s_int) and r > 0,
+                 n=len(order), sample=dict(desc_of(task), siblings=[
+                     (t['decoder'], t['noise'], t['rate'], t['noise_def'][0])
+                     for t, _, _ in sibs]) if r == 0 else None)
+
+
 def run_task(task, out):
-    {'pairs': run_pairs, 'histories': run_histories}[task['kind']](task, out)
+    {'pairs': run_pairs, 'histories': run_histories,
+     'siblings': run_siblings}[task['kind']](task, out)
 
 
 def finalize(run, tier, seed):
